@@ -326,6 +326,14 @@ func runC19(r *Run, replay *Case) {
 		r.Add(c19Eval("doctype", dt+"\n<html><head><title>t</title></head><body><p>x</p></body></html>"))
 		r.Add(c19Eval("doctype", "---\ntitle: T\n---\n"+dt+"\n<html>\n<head></head>\n<body><p>x</p></body>\n</html>\n"))
 	}
+	// front-matter with lines that resemble the fence: an indented `---` inside a block scalar, a longer dashed line
+	for _, fm := range []string{
+		"---\ntitle: Notes\nsummary: |\n  First paragraph.\n  ---\n  Second paragraph.\ntags: [a, b]\n---\n<div><p>{{ title }}</p></div>\n",
+		"---\ntitle: T\nnote: \"a --- b\"\n---\n<p>x</p>\n",
+		"---\na: 1\n  ---\nb: 2\n---\n<ul><li>x</li></ul>\n",
+	} {
+		r.Add(c19Eval("frontmatter-fence-like", fm))
+	}
 	for _, raw := range []string{"<script>if (a < b && c > d) { go(); }</script>", "<div><script>items.forEach(i => init(i));</script></div>", "<style>ul > li { margin: 0 }</style>", "<script>x = 1 & 2;</script><p>t</p>", "<script>  padded <b>  </script>"} {
 		r.Add(c19Eval("raw-one-line", raw))
 	}
